@@ -365,3 +365,4 @@ def run(chk):
     run_m1(chk, P)
     from . import clones
     clones.rule_defuse(chk, 'D1', 'D2', ('mgr',), floor=50)
+    clones.rule_tables(chk, 'N5', ('mgr',), floor=20)
